@@ -267,6 +267,35 @@ theorem encrypt_failure_is_an_error (c mac il iml ml dl dp ip imp mr nd rb ri nu
   simp only [KOut.count, KOut.written, List.filter, List.find?, String.reduceBEq, List.length]
   refine ⟨?_, ?_, ?_, ?_⟩ <;> repeat' (first | split | omega | rfl)
 
+/-! ## `enc_init`, `enc_timestamp` (C05, C06): fresh salt and IV of the right lengths, the daemon's clock -/
+
+/-- **Every credential gets `MUNGE_CRED_SALT_LEN` = 8 fresh salt bytes - drawn AFTER the length is set - and, when encrypted, an
+    IV of exactly the cipher's IV length** (identical requests in one second therefore differ: C05's "distinct credentials");
+    an unencrypted credential has no IV. -/
+theorem salt_and_iv_are_drawn (c sp ip sl0 il0 r1 r2 : Int) (ivs : Int → Int) (h : (enc_init c sp ip sl0 il0 r1 r2 ivs).ret = 0) :
+    (enc_init c sp ip sl0 il0 r1 r2 ivs).get "c.salt_len" (-1) = 8 ∧
+    (enc_init c sp ip sl0 il0 r1 r2 ivs).events.head? = some ("random_pseudo_bytes", [sp, 8]) ∧
+    (enc_init c sp ip sl0 il0 r1 r2 ivs).get "c.iv_len" (-1) = (if c = 0 then 0 else ivs c) ∧
+    ((enc_init c sp ip sl0 il0 r1 r2 ivs).count "random_pseudo_bytes" = if c ≠ 0 ∧ 0 < ivs c then 2 else 1) ∧
+    (c ≠ 0 → 0 < ivs c → (enc_init c sp ip sl0 il0 r1 r2 ivs).events.getLast? = some ("random_pseudo_bytes", [ip, ivs c])) := by
+  unfold enc_init at h ⊢
+  by_cases h0 : c = 0
+  · simp [h0, KOut.get, KOut.written, KOut.count]
+  · by_cases h1 : ivs c < 0
+    · simp [h0, h1] at h
+    · by_cases h2 : ivs c > 0 <;> simp [h0, h1, h2, KOut.get, KOut.written, KOut.count] <;> omega
+
+/-- **The encode time is the daemon's clock** (truncated to the 32-bit field), the decode time is cleared; a failing clock
+    fails the encode. -/
+theorem encode_time_is_the_clock (now rt : Int) :
+    (rt ≠ -1 → (enc_timestamp now rt).ret = 0 ∧ (enc_timestamp now rt).get "c.msg.time0" (-1) = now % 4294967296 ∧
+               (enc_timestamp now rt).get "c.msg.time1" (-1) = 0) ∧
+    (rt = -1 → (enc_timestamp now rt).ret = -1 ∧ (enc_timestamp now rt).writes = []) := by
+  unfold enc_timestamp
+  constructor
+  · intro h; simp [h, KOut.get, KOut.written, wrapU32]
+  · intro h; simp [h]
+
 /-! ## `enc_armor` (C10 / C19): PREFIX ‖ base64 (OUTER ‖ MAC ‖ INNER) ‖ SUFFIX, inside its buffer -/
 
 /-- **The armor is the prefix, then the base64 stream fed the outer layer, the MAC and the inner layer - in that order, each whole,
